@@ -20,24 +20,31 @@ TInit == Init /\ l = 1
 
 TReset == /\ Is("Reset")
           /\ disk' = <<>> /\ wr' = <<>> /\ rd' = <<>> /\ us' = <<>> /\ mg' = <<>> /\ so' = <<>>
-          /\ fs' = EmptyFs /\ it' = <<>> /\ pl' = <<>>
+          /\ fs' = EmptyFs /\ it' = <<>> /\ pl' = <<>> /\ judge' = {}
+\* {"e":"Judge","props":["C01",...]}: which properties this execution is judged for
+TJudge == Is("Judge") /\ judge' = {Ev.props[i] : i \in 1..Len(Ev.props)} /\ UNCHANGED <<disk, wr, rd, us, mg, so, fs, it, pl>>
 
 \* lines that carry no obligation for this specification (validated elsewhere or informational)
 Ignored == {"Note", "Obs", "LeakCheck", "Spill", "MergeCall", "Exit", "PoolInit", "PoolDestroy", "Write"}
 TIgnore == l <= Len(Tr) /\ Ev.e \in Ignored /\ l' = l + 1 /\ UNCHANGED vars
 
-TMkOther  == Is("MkFile") /\ MkOther(Ev.path)
+TMkOther  == (Is("MkFile") \/ Is("Symlink") \/ Is("Mkdir")) /\ MkOther(Ev.path, IF Has("h") THEN Ev.h ELSE "")
 TMkTable  == Is("MkTable") /\ MkTable(Ev.path, Ev.ents)
 TRm       == Is("Rm") /\ RmFile(Ev.path)
 
-TWInit    == Is("WInit") /\ (IF Has("fd") /\ Ev.fd THEN Ev.ok /\ WInitFd(Ev.w, Ev.path, Ev.pool)
-                                                  ELSE WInit(Ev.w, Ev.path, Ev.pool, Ev.ok))
+WCfg      == [bs |-> Ev.bs, ri |-> Ev.ri, prefix |-> Ev.prefix, comp |-> Ev.comp, pool |-> Ev.pool]
+TWInit    == Is("WInit") /\ (IF Ev.fd THEN Ev.ok /\ WInitFd(Ev.w, Ev.path, WCfg)
+                                      ELSE WInit(Ev.w, Ev.path, WCfg, Ev.ok))
 TWAdd     == Is("WAdd") /\ WAdd(Ev.w, Ev.k, Ev.v, Ev.ok)
 TWClose   == Is("WClose") /\ WClose(Ev.w)
 
 TROpen    == Is("ROpen") /\ ROpen(Ev.r, Ev.path, Ev.ok)
 TRDestroy == Is("RDestroy") /\ RDestroy(Ev.r)
-TRMeta    == Is("RMeta") /\ RMetaOk(Ev.r, Ev.count_entries, Ev.bytes_keys, Ev.bytes_values) /\ UNCHANGED vars
+TRMeta    == Is("RMeta") /\ Ev.r \in DOMAIN rd /\ StatsOk(rd[Ev.r].path, Ev)
+TInfo     == Is("Info") /\ StatsOk(Ev.path, Ev)
+TDump     == Is("Dump") /\ DumpOk(Ev.path, Ev.kp, Ev.vp, Ev.mink, Ev.minv, Ev.ents)
+TFileStruct == Is("FileStruct") /\ FileStruct(Ev.path, Ev.S)
+TFileHash == Is("FileHash") /\ FileHash(Ev.path, Ev.h)
 
 TUInit    == Is("UInit") /\ UInit(Ev.u)
 TUAdd     == Is("UAdd") /\ UAdd(Ev.u, Ev.k, Ev.v)
@@ -53,7 +60,7 @@ TNext     == Is("Next") /\ Intact          \* buffers handed out stayed intact u
 TClose    == Is("Close") /\ Intact /\ Close(Ev.i)
 TSrcWrite == Is("SrcWrite") /\ SrcWrite(Ev.src, Ev.w, Ev.ok)
 
-TNext0 == \/ TReset \/ TIgnore \/ TMkOther \/ TMkTable \/ TRm
+TNext0 == \/ TReset \/ TJudge \/ TIgnore \/ TInfo \/ TDump \/ TFileStruct \/ TFileHash \/ TMkOther \/ TMkTable \/ TRm
           \/ TWInit \/ TWAdd \/ TWClose \/ TROpen \/ TRDestroy \/ TRMeta
           \/ TUInit \/ TUAdd \/ TUDestroy \/ TMInit \/ TMAdd \/ TMDestroy
           \/ TOpen \/ TSeek \/ TNext \/ TClose \/ TSrcWrite
